@@ -131,7 +131,26 @@ func genValidConfig(r R) cors.Config {
 			}
 			c.Origins = append(c.Origins, pair...)
 		}
-		c.Origins = r.perm(c.Origins)
+		// generative atoms: sibling hosts below one tree node (boundary counts), insecure-by-scheme/IP patterns
+		if r.chance(1, 6) {
+			sch := r.pick([]string{"https", "https", "http"})
+			port := r.pick([]string{"", "", ":8443", ":*"})
+			for _, h := range genSiblings(r, genCount(r)) {
+				c.Origins = append(c.Origins, sch+"://"+r.pick([]string{"", "", "", "*."})+h+port)
+			}
+			if sch == "http" && (c.Credentialed || c.PrivateNetworkAccess || c.PrivateNetworkAccessInNoCORSModeOnly) {
+				c.DangerouslyTolerateInsecureOrigins = true
+			}
+		} else if r.chance(1, 6) {
+			for k := 1 + r.Intn(3); k > 0; k-- {
+				c.Origins = append(c.Origins, genInsecureOrigin(r))
+			}
+			if c.Credentialed || c.PrivateNetworkAccess || c.PrivateNetworkAccessInNoCORSModeOnly {
+				c.DangerouslyTolerateInsecureOrigins = true
+			}
+		} else {
+			c.Origins = r.perm(c.Origins)
+		}
 	}
 	if r.chance(1, 8) {
 		c.DangerouslyTolerateInsecureOrigins = true
@@ -144,6 +163,15 @@ func genValidConfig(r R) cors.Config {
 		}
 	case 1, 2:
 		c.Methods = pickN(r, methodsValid, 4)
+		if r.chance(1, 3) {
+			for k := 1 + r.Intn(3); k > 0; k-- {
+				c.Methods = append(c.Methods, genMethod(r))
+			}
+		} else if r.chance(1, 8) {
+			for k := genCount(r); k > 0; k-- {
+				c.Methods = append(c.Methods, genMethod(r))
+			}
+		}
 	}
 	switch r.Intn(6) {
 	case 0:
@@ -154,6 +182,16 @@ func genValidConfig(r R) cors.Config {
 		c.RequestHeaders = r.perm(append(pickN(r, reqHdrsValid, 3), "*"))
 	case 3, 4:
 		c.RequestHeaders = pickN(r, reqHdrsValid, 5)
+		if r.chance(1, 3) {
+			for k := 1 + r.Intn(3); k > 0; k-- {
+				c.RequestHeaders = append(c.RequestHeaders, genHdrName(r))
+			}
+		} else if r.chance(1, 5) { // exactly n generated names, n at a boundary
+			c.RequestHeaders = nil
+			for k := genCount(r); k > 0; k-- {
+				c.RequestHeaders = append(c.RequestHeaders, genHdrName(r))
+			}
+		}
 	}
 	// occasionally: long lists (sets and trees with dozens of entries)
 	if r.chance(1, 12) {
@@ -185,6 +223,16 @@ func genValidConfig(r R) cors.Config {
 		}
 	case 1, 2:
 		c.ResponseHeaders = pickN(r, resHdrsValid, 4)
+		if r.chance(1, 3) {
+			for k := 1 + r.Intn(3); k > 0; k-- {
+				c.ResponseHeaders = append(c.ResponseHeaders, genHdrName(r))
+			}
+		} else if r.chance(1, 8) {
+			c.ResponseHeaders = nil
+			for k := genCount(r); k > 0; k-- {
+				c.ResponseHeaders = append(c.ResponseHeaders, genHdrName(r))
+			}
+		}
 	}
 	return c
 }
@@ -225,11 +273,23 @@ func genAnyConfig(r R) cors.Config {
 	if mut(20) {
 		c.Methods = r.perm(append(c.Methods, r.pick(methodsDefect)))
 	}
+	if mut(4) {
+		c.Methods = r.perm(append(c.Methods, r.pick(methodsUnicodeFold)))
+	}
 	if mut(20) {
 		c.RequestHeaders = r.perm(append(c.RequestHeaders, r.pick(reqHdrsDefect)))
 	}
+	if mut(8) {
+		c.RequestHeaders = r.perm(append(c.RequestHeaders, genForbiddenHdrName(r)))
+	}
+	if mut(4) {
+		c.RequestHeaders = r.perm(append(c.RequestHeaders, r.pick(hdrNamesUnicodeFold)))
+	}
 	if mut(20) {
 		c.ResponseHeaders = r.perm(append(c.ResponseHeaders, r.pick(resHdrsDefect)))
+	}
+	if mut(4) {
+		c.ResponseHeaders = r.perm(append(c.ResponseHeaders, r.pick(hdrNamesUnicodeFold)))
 	}
 	if mut(8) {
 		c.ResponseHeaders = r.perm(append(c.ResponseHeaders, "*"))
